@@ -10,7 +10,7 @@ satisfiable by the `example` at the end):
                        `from_dmrs` reads as an argument target (`node.type in 'xeipu'`).
 All statements hold for EVERY choice `chosen` of scope labels by `scope.conjoin`.
 -/
-import Verif.C04.RoundTrip8
+import Verif.C04.RepsAgree5
 
 namespace Verif.C04
 open Verif.Sem
@@ -118,6 +118,55 @@ theorem second_conversion_stable_partial (m : MRS) (hN : BaseIdsDistinct m)
   subst this
   exact ⟨C.second_nodes hS hQ d2 h3, C.second_top hS reps2 hr2 hA d2 h3,
     C.second_index hS d2 h3, C.second_links hR hS reps2 hr2 hA d2 h3⟩
+
+/-- **The representatives agree** — `RepsAgree` discharged from hypotheses on `m` alone (its DMRS
+`d` is a function of `m`): in addition to the hypotheses above,
+`ScopesHeld m d` — every scope of `m` is held together by the EQ links of its DMRS (no group of
+members without a representative: the negation is the input class of finding F08), and
+`NoDescArg m` — no predication takes, as a non-scopal argument, a scopal descendant of another
+member of its own scope (so the second blocking test of `scope.representatives` never fires; the
+proof uses soundness of `scope.descendants`, not its exact value, and therefore needs no
+acyclicity assumption).  Both are decidable and evaluated by the driver on every case. -/
+theorem repsAgree_of_space (m : MRS) (hN : BaseIdsDistinct m) (hR : RolesOk m = true)
+    (hS : IVSorts m = true) (chosen : List Var) (d : DMRS) (m2 : MRS)
+    (h1 : fromMrs m = .ok d) (h2 : fromDmrs chosen d = .ok m2) (reps reps2 : Reps)
+    (hr : m.representatives = .ok reps) (hr2 : m2.representatives = .ok reps2)
+    (hQ : RstrLinked m reps = true) (hH : ScopesHeld m d = true) (hD : NoDescArg m = true) :
+    RepsAgree m m2 reps reps2 := by
+  obtain ⟨reps', topLbl, sc, lbl, leqs, idToIv, ns, scs, lo, hi, C⟩ :=
+    rtctx m hN hR chosen d m2 h1 h2
+  have : reps' = reps := by
+    have := C.hreps
+    rw [hr] at this
+    simpa using this.symm
+  subst this
+  exact C.repsAgree hR hS hQ hH hD reps2 hr2
+
+/-
+FULL STATEMENT (not proved): the theorem below without `NoDescArg m`.
+Missing: when a predication takes a scopal descendant of a co-member as an argument, the blocking
+test consults the VALUE of `scope.descendants`, which for cyclic scopal structures depends on the
+order of the arguments; invariance of that value under the positional correspondence needs the
+exact argument order of the rebuilt predications.  No counter-example is known (the driver finds
+`RepsAgree` true on every generated case satisfying the other hypotheses).
+-/
+
+/-- **Second conversion, from hypotheses on `m` alone.**  For every MRS `m` with pairwise distinct
+identifiers, `dict`-like roles other than `MOD`, intrinsic variables of sorts `from_dmrs` reads,
+quantifiers that keep their RSTR link, scopes held together by EQ links and no argument into a
+scopal descendant of a co-member, and for every choice of scope labels by `conjoin`: if the three
+conversions succeed, `fromMrs (fromDmrs chosen (fromMrs m))` has the same nodes, top, index and the
+same set of links as `fromMrs m`. -/
+theorem second_conversion_stable (m : MRS) (hN : BaseIdsDistinct m)
+    (hR : RolesOk m = true) (hS : IVSorts m = true) (chosen : List Var) (d : DMRS) (m2 : MRS)
+    (d2 : DMRS) (h1 : fromMrs m = .ok d) (h2 : fromDmrs chosen d = .ok m2)
+    (h3 : fromMrs m2 = .ok d2) (reps : Reps) (hr : m.representatives = .ok reps)
+    (hQ : RstrLinked m reps = true) (hH : ScopesHeld m d = true) (hD : NoDescArg m = true) :
+    d2.nodes = d.nodes ∧ d2.top = d.top ∧ d2.index = d.index ∧
+    ∀ l, l ∈ d2.links ↔ l ∈ d.links := by
+  obtain ⟨reps2, hr2⟩ := MRS.representatives_total m2
+  exact second_conversion_stable_partial m hN hR hS chosen d m2 d2 h1 h2 h3 reps reps2 hr hr2 hQ
+    (repsAgree_of_space m hN hR hS chosen d m2 h1 h2 reps reps2 hr hr2 hQ hH hD)
 
 /-- the identifiers of the MRS that comes back are pairwise distinct, so every theorem of
 `Props.lean` (link justification, node/top/index shape, totality) applies to the second
@@ -436,12 +485,13 @@ def bigDog : MRS :=
     hcons := [⟨⟨"h", 0⟩, "qeq", ⟨"h", 1⟩⟩, ⟨⟨"h", 5⟩, "qeq", ⟨"h", 7⟩⟩,
               ⟨⟨"h", 10⟩, "qeq", ⟨"h", 11⟩⟩] }
 
-/-- all three conversions succeed on `m`, every quantifier keeps its RSTR link, the
-representatives agree, and the second conversion has the same nodes. -/
+/-- all three conversions succeed on `m`, every quantifier keeps its RSTR link, the scopes are
+held together, no argument goes into a scopal descendant of a co-member, the representatives
+agree, and the second conversion has the same nodes. -/
 def stableCheck (m : MRS) (chosen : List Var) : Bool :=
   match m.representatives, fromMrs m with
   | .ok reps, .ok d =>
-    RstrLinked m reps &&
+    RstrLinked m reps && ScopesHeld m d && NoDescArg m &&
     (match fromDmrs chosen d with
      | .ok m2 =>
        (match m2.representatives, fromMrs m2 with
